@@ -4015,16 +4015,18 @@ size_t ZBUFFv06_decompressContinue(ZBUFFv06_DCtx* zbd,
                 zbd->blockSize = blockSize;
                 if (zbd->inBuffSize < blockSize) {
                     free(zbd->inBuff);
-                    zbd->inBuffSize = blockSize;
+                    zbd->inBuffSize = 0;
                     zbd->inBuff = (char*)malloc(blockSize);
                     if (zbd->inBuff == NULL) return ERROR(memory_allocation);
+                    zbd->inBuffSize = blockSize;
                 }
                 {   size_t const neededOutSize = ((size_t)1 << zbd->fParams.windowLog) + blockSize + WILDCOPY_OVERLENGTH * 2;
                     if (zbd->outBuffSize < neededOutSize) {
                         free(zbd->outBuff);
-                        zbd->outBuffSize = neededOutSize;
+                        zbd->outBuffSize = 0;
                         zbd->outBuff = (char*)malloc(neededOutSize);
                         if (zbd->outBuff == NULL) return ERROR(memory_allocation);
+                        zbd->outBuffSize = neededOutSize;
             }   }   }
             zbd->stage = ZBUFFds_read;
 	    /* fall-through */
